@@ -361,7 +361,7 @@ def Spec.classifiedLoops : List Classified := [
   ⟨"eval/eval.go | State.evalPrintLogError | range node.Parameters", polls, "evalInternal(v) per parameter"⟩,
   ⟨"eval/eval.go | State.evalStatements | range stmts", polls, "evalInternal(statement)"⟩,
   ⟨"eval/eval.go | State.extendFunctionEnv | range params", boundedByContainer, "the parameter list of the called function"⟩,
-  ⟨"eval/eval.go | State.extendFunctionEnv | range params[paramIdx+1:]", boundedByContainer, "the later parameters of the called function (is this one shadowed by a later one of the same name? repo fix 16bb0de): quadratic in the parameter count of one function literal"⟩,
+  ⟨"eval/eval.go | State.extendFunctionEnv | range params[paramIdx+1:]", boundedByContainer, "the later parameters of the called function (is this one shadowed by a later one of the same name? repo fix a353195): quadratic in the parameter count of one function literal"⟩,
   ⟨"eval/eval_api.go | State.SetArgs | range args", boundedByContainer, "host supplied argument vector"⟩,
   ⟨"eval/macro_expension.go | State.DefineMacros | for i := 0; i < len(program.Statements); ", boundedByContainer,
     "each iteration either advances i or removes one statement of the parsed program"⟩,
